@@ -63,13 +63,21 @@ def float_sweep(payload):
         for i in range(n):
             x1, y1 = rnd.randint(0, 12) * 0.1, rnd.randint(0, 12) * 0.1
             bs.append((i, (x1, y1, x1 + rnd.choice([0, 1, 2, 3]) * 0.1, y1 + rnd.choice([0, 1, 2, 3]) * 0.1)))
-        idx = rtree.Index(list(bs))
+        try:
+            idx = rtree.Index(list(bs))
+        except RecursionError:
+            return {'found': True, 'input': {'boxes': bs}, 'observed': 'construction does not terminate (RecursionError)', 'expected': 'terminates', 'tried': tried}
+        except Exception as ex:    # noqa
+            return {'found': True, 'input': {'boxes': bs}, 'observed': f'raised {type(ex).__name__}: {ex}', 'expected': 'an index', 'tried': tried}
         for _ in range(6):
             x, y = rnd.randint(-1, 13) * 0.1, rnd.randint(-1, 13) * 0.1
             q = (x, y, x + rnd.choice([0, 1, 2]) * 0.1, y + rnd.choice([0, 1, 2]) * 0.1)
             tried += 1
-            got = idx.intersection(q)
             want = brute(bs, q)
+            try:
+                got = idx.intersection(q)
+            except Exception as ex:    # noqa
+                return {'found': True, 'input': {'boxes': bs, 'query': q}, 'observed': f'raised {type(ex).__name__}: {ex}', 'expected': sorted(want), 'tried': tried}
             if got != want:
                 return {'found': True, 'input': {'boxes': bs, 'query': q}, 'observed': sorted(got), 'expected': sorted(want), 'tried': tried}
             if got:
